@@ -47,6 +47,21 @@ def reach_public(prog, root):
     return out
 
 
+def pr_rec(prog, e):
+    return prog.find_type(e.type_name.split(":", 1)[1]) if e.type_name and ":" in e.type_name else None
+
+
+def in_cycle_with_private(prog, rec):
+    """Does `rec` reach a private struct that reaches `rec` back?"""
+    if rec is None:
+        return False
+    for t in prog.reach(rec, through_methods=False):
+        if t is not rec and isinstance(t, progen.Record) and getattr(t, "where", "public") == "private" and not t.opaque:
+            if any(x is rec for x in prog.reach(t, through_methods=False)):
+                return True
+    return False
+
+
 def near_privates(rec):
     """names of the private structs that `rec` itself has (pointer) members of"""
     near = set()
@@ -127,6 +142,10 @@ def case(ctx, i):
         hopts = ["--headers-dir1", os.path.join(d, "hdr_a"), "--headers-dir2", os.path.join(d, "hdr_b")]
     else:
         hopts = ["--header-file1", os.path.join(d, "hdr_a", "public.h"), "--header-file2", os.path.join(d, "hdr_b", "public.h")]
+    # A public struct that has a pointer member to a private struct is in the same situation as the public+private class
+    # even when nothing private was mutated: a private struct it reaches has a non-empty diff as soon as it reaches back to the
+    # changed public struct (a reference cycle), and is filtered as private
+    fam = both or (not want_private and in_cycle_with_private(p, pr_rec(p, e)))
     what = "%s on %s struct %s%s; %s; %s" % (e.kind, "private" if want_private else "public", e.type_name,
                                              " + a change to a private struct" if both else "", style, wl.describe_cfg(cfg))
     ctrl = wl.tool_run(ctx, "abidiff", [a, b], d)
@@ -161,7 +180,7 @@ def case(ctx, i):
                       % (filt.rc, sorted(changed(rf))[:4], what), control=ctrl.brief(), filtered=filt.brief())
     else:
         if not (filt.rc and filt.rc & 4) or not (changed(rf) & set(e.affected)):
-            r.violate("oracle:C26:public-change-filtered-together-with-private-change:%s" % e.kind if both else
+            r.violate("oracle:C26:public-change-filtered-together-with-private-change:%s" % e.kind if fam else
                       "oracle:C26:public-change-filtered:%s:%s" % (style, e.kind),
                       "a change to a struct defined in the public header is no longer reported with the header options: exit %s, interfaces %s, expected one of %s (%s)"
                       % (filt.rc, sorted(changed(rf))[:4], e.affected[:4], what), control=ctrl.brief(), filtered=filt.brief())
@@ -173,8 +192,8 @@ def case(ctx, i):
             rd = report.Report(drop.stdout)
             # (when a private struct changed as well, which of the using interfaces carries the - single - report of the
             # public change may differ: only the status is compared then)
-            if not rd.unparsed and (drop.rc != filt.rc or (changed(rd) != changed(rf) and not both)):
-                r.violate("oracle:C26:drop-private-types-changes-verdict%s:%s" % ("-together-with-private-change" if both else "", e.kind),
+            if not rd.unparsed and (drop.rc != filt.rc or (changed(rd) != changed(rf) and not fam)):
+                r.violate("oracle:C26:drop-private-types-changes-verdict%s:%s" % ("-together-with-private-change" if fam else "", e.kind),
                           "--drop-private-types changes the verdict on a public change: exit %s vs %s, interfaces %s vs %s (%s)"
                           % (drop.rc, filt.rc, sorted(changed(rd))[:4], sorted(changed(rf))[:4], what), filtered=filt.brief(), dropped=drop.brief())
     r.nontrivial = True
